@@ -132,7 +132,10 @@ def sim_modified(inv):
     for n in inv.get("ninja", []):
         bd = n["bdir"]
         for s in n["steps"]:
+            gone = set(s.get("transient", []))
             for wpath in s.get("writes", []):
+                if wpath in gone:
+                    continue  # scratch files that no longer exist cannot show up in a before/after comparison
                 if wpath.startswith(bd + "/"):
                     mod.add(wpath[len(bd) + 1:])
     return mod
